@@ -14,6 +14,38 @@ TARGETS = ["C15_Props.vo", "C15_Check.vo"]
 PKG = "component/outbound"
 HARNESS = ["outbound/common_test.go", "outbound/c15_test.go"]
 EXPORT = ("component/outbound/dialer/zz_verif_c15_export.go", "harness/dialer/c15_export.go")
+HOOK = ("component/outbound/zz_verif_c15_hook.go", "harness/outbound/c15_hook.go")
+GROUP_SRC = "component/outbound/dialer_group.go"
+SWITCH_ORDER = [2, 3, 0, 1, 4, 5]   # uniqueAliveDialerSets order as harness type numbers: tcp4 tcp6 dns4 dns6 udp4 udp6
+
+# yield points inserted (in a scratch copy, via -overlay) into DialerGroup.SetSelectionPolicy; each anchor must occur
+# exactly once in the source, otherwise the shape of the function changed and the tie is reported broken
+PATCHES = [
+    ("\t\t\tfor _, set := range uniqueAliveDialerSets(current.aliveDialerSets) {\n"
+     "\t\t\t\tset.SetSelectionPolicy(policy.Policy)\n"
+     "\t\t\t}\n",
+     "\t\t\tverifC15Switched := 0\n"
+     "\t\t\tfor _, set := range uniqueAliveDialerSets(current.aliveDialerSets) {\n"
+     "\t\t\t\tset.SetSelectionPolicy(policy.Policy)\n"
+     "\t\t\t\tverifC15Switched++\n"
+     "\t\t\t\tverifC15Yield(verifC15Switched)\n"
+     "\t\t\t}\n"),
+    ("\t\t\taliveDialerSets: current.aliveDialerSets,\n\t\t}\n\t\tg.selectionState.Store(next)\n",
+     "\t\t\taliveDialerSets: current.aliveDialerSets,\n\t\t}\n\t\tverifC15Yield(7)\n\t\tg.selectionState.Store(next)\n"),
+]
+
+
+def patched_group_source(sc):
+    src = open(os.path.join(vlib.REPO, GROUP_SRC)).read()
+    for old, new in PATCHES:
+        if src.count(old) != 1:
+            return None, "anchor not found exactly once in %s: %r" % (GROUP_SRC, old[:60])
+        src = src.replace(old, new)
+    path = sc.path("dialer_group_c15_hooked.go")
+    with open(path, "w") as f:
+        f.write(src)
+    return path, None
+
 
 MS = 1000000
 HOUR = 3600 * 1000 * MS
@@ -33,6 +65,20 @@ def gen_policy(rng, n):
     if p == "fixed":
         i = rng.choice([0, 0, max(n - 1, 0), n, -1, rng.randint(0, max(n - 1, 0))])
     return {"p": p, "i": i}
+
+
+def gen_select(rng, n, hot, cur):
+    tt = rng.choice(hot + [4, 4])
+    v = 4 if tt % 2 == 0 else 6
+    if tt in (2, 3):
+        l4, isdns, udom = "tcp", rng.random() < 0.3, rng.choice([0, 0, 1, 2])
+    elif tt in (0, 1):
+        l4, isdns, udom = "udp", rng.random() < 0.7, 1
+    else:
+        l4, isdns, udom = "udp", rng.random() < 0.2, rng.choice([0, 2])
+    excl = -1 if rng.random() < 0.4 else rng.randrange(n)
+    return {"k": "select", "l4": l4, "v": v, "isdns": isdns, "udom": udom, "strict": rng.random() < 0.5,
+            "excl": excl, "draws": 6 if cur == "random" else 1}
 
 
 def gen_case(rng, big=False, allow_huge=True):
@@ -80,20 +126,29 @@ def gen_case(rng, big=False, allow_huge=True):
             ops.append({"k": "silent", "d": d, "t": t, "lat": rng.choice(levels)})
         elif r < 0.70:
             pol = gen_policy(rng, n)
+            o = {"k": "policy", "pol": pol}
+            if rng.random() < 0.5:   # operations of other threads running inside the switch
+                inner = []
+                for _ in range(rng.randint(1, 4)):
+                    rr = rng.random()
+                    dd, t2 = rng.randrange(n), rng.choice(hot)
+                    if rr < 0.3:
+                        inner.append({"k": "sample", "d": dd, "t": t2, "lat": rng.choice(levels)})
+                    elif rr < 0.45:
+                        inner.append({"k": "notify", "d": dd, "t": t2, "alive": rng.random() < 0.5})
+                    elif rr < 0.55:
+                        inner.append({"k": "getmin", "d": 0, "t": t2, "excl": rng.choice([-1, dd]), "draws": 1})
+                    else:
+                        inner.append(gen_select(rng, n, hot, cur))
+                o["hook"] = {"at": rng.randint(1, 7), "ops": inner}
             cur = pol["p"]
-            ops.append({"k": "policy", "pol": pol})
+            ops.append(o)
+        elif r < 0.73:
+            ops.append({"k": "switchset", "t": t, "pol": {"p": rng.choice(["random", "min", "min_avg10", "min_moving_avg"]), "i": 0}})
+        elif r < 0.77:
+            ops.append({"k": rng.choice(["getmin", "getmin", "getrand"]), "d": 0, "t": t, "excl": rng.choice([-1, d]), "draws": 3})
         else:
-            tt = rng.choice(hot + [4, 4])
-            v = 4 if tt % 2 == 0 else 6
-            if tt in (2, 3):
-                l4, isdns, udom = "tcp", rng.random() < 0.3, rng.choice([0, 0, 1, 2])
-            elif tt in (0, 1):
-                l4, isdns, udom = "udp", rng.random() < 0.7, 1
-            else:
-                l4, isdns, udom = "udp", rng.random() < 0.2, rng.choice([0, 2])
-            excl = -1 if rng.random() < 0.4 else rng.randrange(n)
-            ops.append({"k": "select", "l4": l4, "v": v, "isdns": isdns, "udom": udom, "strict": rng.random() < 0.5,
-                        "excl": excl, "draws": 6 if cur == "random" else 1})
+            ops.append(gen_select(rng, n, hot, cur))
     return {"n": n, "offs": offs, "tol": tol, "p0": p0, "ops": ops}
 
 
@@ -125,6 +180,134 @@ def gen_boundary():
                         ops.append({"k": "select", "l4": l4, "v": v, "isdns": isdns, "udom": udom, "strict": strict,
                                     "excl": excl, "draws": 3 if pol == "random" and n > 1 else 1})
             cases.append({"n": n, "offs": [0] * n, "tol": 30 * MS, "p0": {"p": pol, "i": 0}, "ops": ops})
+    return cases
+
+
+SETPOLS = ["min", "min_avg10", "min_moving_avg", "random"]
+
+
+def _reads(n, draws_rand):
+    """selections and direct set reads over tcp4 / data-udp4 / dns-udp4"""
+    ops = []
+    for (l4, v, isdns, udom) in (("tcp", 4, False, 0), ("udp", 4, False, 2)):
+        for strict in (True, False):
+            for excl in ((-1, 0) if n > 1 else (-1,)):
+                ops.append({"k": "select", "l4": l4, "v": v, "isdns": isdns, "udom": udom, "strict": strict,
+                            "excl": excl, "draws": draws_rand})
+    for t in (2, 4, 0):
+        for excl in ((-1, 0) if n > 1 else (-1,)):
+            ops.append({"k": "getmin", "d": 0, "t": t, "excl": excl, "draws": 1})
+        ops.append({"k": "getrand", "d": 0, "t": t, "excl": -1, "draws": 3})
+    return ops
+
+
+def _setup(n, latcfg, deadcfg):
+    ops = []
+    lat = [80 * MS, 50 * MS, 120 * MS]
+    for t in (2, 4, 0):
+        for d in range(n):
+            if latcfg == 2 or (latcfg == 1 and d == n - 1):      # 0: nobody measured, 1: one node, 2: all
+                ops.append({"k": "sample", "d": d, "t": t, "lat": lat[d]})
+    if deadcfg == 1:      # the standing choice of tcp4 dies (forced), one node of data-udp4 is told dead
+        ops.append({"k": "die", "d": n - 1 if latcfg == 1 else (1 if n > 1 and latcfg == 2 else 0), "t": 2})
+        ops.append({"k": "notify", "d": 0, "t": 4, "alive": False})
+    elif deadcfg == 2:    # data-udp4 and dns-udp4 wholly dead: fallback chain down to tcp4
+        for d in range(n):
+            ops.append({"k": "die", "d": d, "t": 4})
+            ops.append({"k": "notify", "d": d, "t": 0, "alive": False})
+    return ops
+
+
+def gen_switch_direct():
+    """fixed family (a): every ordered pair (published policy, per-set policy) of the four alive-set policies, with
+    nobody / one node / every node measured and three health patterns; sets are switched by hand with the real
+    AliveDialerSet.SetSelectionPolicy (all six, a prefix of the switch order, or two types), then every read
+    (Select, GetMinLatency, GetRandExcluded) runs under the OLD published policy; notifications arrive in that
+    window; then the group publishes, reads again, and everything is switched back."""
+    cases = []
+    k = 0
+    for pub in SETPOLS:
+        for sp in SETPOLS:
+            if sp == pub:
+                continue
+            for latcfg in range(3):
+                n = 2 + k % 2
+                deadcfg = k % 3
+                which = [SWITCH_ORDER, SWITCH_ORDER[:1 + k % 5], [2, 4]][(k // 3) % 3]
+                draws = 3 if "random" in (pub, sp) else 1
+                ops = _setup(n, latcfg, deadcfg)
+                ops += [{"k": "switchset", "t": t, "pol": {"p": sp, "i": 0}} for t in which]
+                ops += _reads(n, draws)
+                ops += [{"k": "sample", "d": 0, "t": 2, "lat": 30 * MS}, {"k": "notify", "d": n - 1, "t": 2, "alive": False},
+                        {"k": "notify", "d": n - 1, "t": 4, "alive": True}, {"k": "sample", "d": n - 1, "t": 4, "lat": 10 * MS}]
+                ops += _reads(n, draws)
+                ops.append({"k": "policy", "pol": {"p": sp, "i": 0}})
+                ops += _reads(n, draws)[:6]
+                ops += [{"k": "switchset", "t": t, "pol": {"p": pub, "i": 0}} for t in which[:2]]
+                ops += _reads(n, draws)[:6]
+                ops.append({"k": "policy", "pol": {"p": sp, "i": 0}})     # published unchanged: only the store happens
+                ops.append({"k": "policy", "pol": {"p": pub, "i": 0}})
+                ops += _reads(n, draws)[:4]
+                cases.append({"n": n, "offs": [0, 10 * MS, 0][:n], "tol": 30 * MS, "p0": {"p": pub, "i": 0}, "ops": ops})
+                k += 1
+    return cases
+
+
+def gen_switch_hooked():
+    """fixed family (b): DialerGroup.SetSelectionPolicy itself, for every ordered pair of alive-set policies, with
+    reads and notifications of other threads run at a yield point inside it (after 1..6 sets have been switched, or
+    after the loop and before the state store)."""
+    cases = []
+    k = 0
+    for pub in SETPOLS:
+        for newp in SETPOLS:
+            for at in ((7, 1 + k % 6) if newp != pub else (7,)):
+                n = 2 + k % 2
+                draws = 3 if "random" in (pub, newp) else 1
+                ops = _setup(n, k % 3, (k // 2) % 3)
+                inner = _reads(n, draws)
+                inner += [{"k": "sample", "d": 0, "t": 2, "lat": 30 * MS}, {"k": "notify", "d": n - 1, "t": 4, "alive": False},
+                          {"k": "die", "d": n - 1, "t": 2}]
+                inner += _reads(n, draws)[:8]
+                ops.append({"k": "policy", "pol": {"p": newp, "i": 0}, "hook": {"at": at, "ops": inner}})
+                ops += _reads(n, draws)[:8]
+                cases.append({"n": n, "offs": [0, 10 * MS, 0][:n], "tol": 30 * MS, "p0": {"p": pub, "i": 0}, "ops": ops})
+                k += 1
+    return cases
+
+
+def gen_foreign():
+    """fixed family: notifications naming a dialer that is NOT a member of the group (number n), alive and not alive,
+    with and without a latency of its own, on full / partly dead / empty sets, followed by reads.  Outside the
+    property's quantifier: only the correspondence implementation = raw model (index-0 aliasing, panics) is judged."""
+    cases = []
+    k = 0
+    for n in (1, 2):
+        for pol in ("random", "min"):
+            for haslat in (False, True):
+                for pattern in range(3):
+                    for alive in (False, True):
+                        ops = []
+                        if pol == "min" and k % 2 == 0:
+                            ops.append({"k": "sample", "d": 0, "t": 2, "lat": 60 * MS})
+                        if pattern == 1:
+                            ops.append({"k": "notify", "d": 0, "t": 2, "alive": False})
+                        elif pattern == 2:
+                            ops += [{"k": "notify", "d": d, "t": 2, "alive": False} for d in range(n)]
+                        if haslat:
+                            ops.append({"k": "silent", "d": n, "t": 2, "lat": 5 * MS})
+                        ops.append({"k": "notify", "d": n, "t": 2, "alive": alive})
+                        ops += [{"k": "getmin", "d": 0, "t": 2, "excl": -1, "draws": 1},
+                                {"k": "getrand", "d": 0, "t": 2, "excl": -1, "draws": 3},
+                                {"k": "select", "l4": "tcp", "v": 4, "isdns": False, "udom": 0, "strict": True, "excl": -1,
+                                 "draws": 3 if pol == "random" else 1},
+                                {"k": "notify", "d": n, "t": 2, "alive": not alive},
+                                {"k": "notify", "d": 0, "t": 2, "alive": True},
+                                {"k": "getmin", "d": 0, "t": 2, "excl": 0, "draws": 1},
+                                {"k": "select", "l4": "tcp", "v": 4, "isdns": False, "udom": 0, "strict": False, "excl": -1,
+                                 "draws": 3 if pol == "random" else 1}]
+                        cases.append({"n": n, "offs": [0] * n, "tol": 0, "p0": {"p": pol, "i": 0}, "ops": ops, "foreign": True})
+                        k += 1
     return cases
 
 
@@ -191,7 +374,7 @@ class BadObservation(Exception):
     pass
 
 
-def step_to_coq(op, st, store):
+def step_to_coq(op, st, store, ctx):
     """one harness step -> list of Coq obs_step terms; `store` (dict) is updated with the reported rows"""
     out = []
     pre = []
@@ -200,13 +383,18 @@ def step_to_coq(op, st, store):
         old = store.get(k, ((False, 0), (False, 0), (False, 0), True))
         trip = tuple((row["has"][i], row["lat"][i] if row["has"][i] else 0) for i in range(3))
         if trip != old[:3]:
-            pre.append("SOp (OLat %s %s (%s, %s, %s)) [] []" % (cnat(row["d"]), TYPES[row["t"]],
+            pre.append("SOp (MOp (OLat %s %s (%s, %s, %s))) [] []" % (cnat(row["d"]), TYPES[row["t"]],
                                                                coz(*trip[0]), coz(*trip[1]), coz(*trip[2])))
         if row["alive"] != old[3]:
-            pre.append("SOp (OAlive %s %s %s) [] []" % (cnat(row["d"]), TYPES[row["t"]], vlib.cbool(row["alive"])))
+            pre.append("SOp (MOp (OAlive %s %s %s)) [] []" % (cnat(row["d"]), TYPES[row["t"]], vlib.cbool(row["alive"])))
         store[k] = trip + (row["alive"],)
     out += pre
     k = op["k"]
+    if st.get("panic"):
+        if k == "notify":
+            out.append("SPanic (MOp (ONotify %s %s %s))" % (cnat(op["d"]), TYPES[op["t"]], vlib.cbool(op["alive"])))
+            return out
+        raise BadObservation("operation %s panicked: %s" % (k, st["panic"]))
     dumps = clist([cdump(d) for d in st["dumps"]])
     cbs = ccbs(st["cbs"])
     if k in ("sample", "die", "fail", "notify"):
@@ -214,12 +402,56 @@ def step_to_coq(op, st, store):
             alive = op["alive"]
         else:
             alive = store.get((op["d"], op["t"]), (None, None, None, True))[3]
-        out.append("SOp (ONotify %s %s %s) %s %s" % (cnat(op["d"]), TYPES[op["t"]], vlib.cbool(alive), dumps, cbs))
+        out.append("SOp (MOp (ONotify %s %s %s)) %s %s" % (cnat(op["d"]), TYPES[op["t"]], vlib.cbool(alive), dumps, cbs))
     elif k == "silent":
         if st["dumps"] or st["cbs"]:
             raise BadObservation("silent sample produced set activity")
     elif k == "policy":
-        out.append("SOp (OPolicy %s) %s %s" % (cgpol(op["pol"]), dumps, cbs))
+        newp, pub = op["pol"], ctx["pub"]
+        both_set = pub["p"] != "fixed" and newp["p"] != "fixed"
+        pts = st.get("points") or []
+        if op.get("hook") and pts:
+            want = ([] if pub["p"] == newp["p"] else [1, 2, 3, 4, 5, 6]) + [7]
+            if not both_set or pts != want:
+                raise BadObservation("yield points %r passed inside SetSelectionPolicy, expected %r" % (pts, want if both_set else []))
+            pd = list(st.get("pointdumps") or [])
+            if len(pd) != len(pts) - 1:
+                raise BadObservation("missing set dumps at the yield points")
+            for pt in pts:
+                if pt < 7:
+                    out.append("SOp (MSwitchSet %s %s) %s []" % (TYPES[SWITCH_ORDER[pt - 1]], cspol(newp["p"]), clist([cdump(pd[pt - 1])])))
+                if pt == op["hook"]["at"]:
+                    inner = st.get("inner") or []
+                    if len(inner) != len(op["hook"]["ops"]):
+                        raise BadObservation("nested operations did not all run")
+                    for iop, ist in zip(op["hook"]["ops"], inner):
+                        out += step_to_coq(iop, ist, store, ctx)
+                if pt == 7:
+                    out.append("SOp (MPublish %s) %s %s" % (cspol(newp["p"]), dumps, cbs))
+        elif op.get("hook") and both_set:
+            raise BadObservation("no yield point was passed inside SetSelectionPolicy")
+        elif both_set and pub["p"] == newp["p"]:
+            out.append("SOp (MPublish %s) %s %s" % (cspol(newp["p"]), dumps, cbs))
+        else:
+            out.append("SOp (MOp (OPolicy %s)) %s %s" % (cgpol(newp), dumps, cbs))
+        ctx["pub"] = newp
+    elif k == "switchset":
+        out.append("SOp (MSwitchSet %s %s) %s %s" % (TYPES[op["t"]], cspol(op["pol"]["p"]), dumps, cbs))
+    elif k in ("getmin", "getrand"):
+        excl = "None" if op["excl"] < 0 else "(Some %s)" % cnat(op["excl"])
+        if st["sels"]:
+            if k == "getmin":
+                seen = set()
+                for x in st["sels"]:
+                    if (x["d"], x["lat"]) in seen:
+                        continue
+                    seen.add((x["d"], x["lat"]))
+                    out.append("SGetMin %s %s %s %s" % (TYPES[op["t"]], excl,
+                                                         "None" if x["d"] < 0 else "(Some %s)" % cnat(x["d"]), cz(x["lat"])))
+            else:
+                ds = sorted(set(x["d"] for x in st["sels"]))
+                out.append("SGetRand %s %s %s" % (TYPES[op["t"]], excl,
+                                                   clist(["None" if d < 0 else "(Some %s)" % cnat(d) for d in ds])))
     elif k == "select":
         res = []
         seen = set()
@@ -248,19 +480,20 @@ def step_to_coq(op, st, store):
 
 def case_to_coq(case, res):
     store = {}
+    ctx = {"pub": case["p0"]}
     init = res["init"]
     if init["store"]:
         raise BadObservation("fresh dialers are not in the start state: %r" % (init["store"][:2],))
     steps = []
     owner = []  # index of harness op for each coq step (1-based coq step numbers)
     for i, (op, st) in enumerate(zip(case["ops"], res["steps"])):
-        ss = step_to_coq(op, st, store)
+        ss = step_to_coq(op, st, store, ctx)
         steps += ss
         owner += [i] * len(ss)
-    term = ("(Build_obs_case %s %s %s %s\n  %s %s\n  %s)" % (
+    term = ("(Build_obs_case %s %s %s %s\n  %s %s\n  %s %s)" % (
         cnat(case["n"]), clist([cz(o) for o in case["offs"]]), cz(case["tol"]), cgpol(case["p0"]),
         clist([cdump(d) for d in init["dumps"]]), ccbs(init["cbs"]),
-        "[" + ";\n   ".join(steps) + "]"))
+        "[" + ";\n   ".join(steps) + "]", vlib.cbool(bool(case.get("foreign")))))
     return term, owner
 
 
@@ -299,7 +532,7 @@ def run_batch(sc, binary, cases, tag):
             pre[i] = [(0, 9, str(e))]
             terms.append(None)
     idx = [i for i, x in enumerate(terms) if x is not None]
-    text = ("From Coq Require Import List ZArith Bool Arith NArith.\nFrom Dae Require Import C15_Spec C15_Model C15_Check.\n"
+    text = ("From Coq Require Import List ZArith Bool Arith NArith.\nFrom Dae Require Import C15_Spec C15_Model C15_Switch C15_Check.\n"
             "Import ListNotations.\nOpen Scope Z_scope.\n" + TYPE_DEFS + POOL.header() +
             "Definition cases : list obs_case := [\n" + ";\n".join(terms[i] for i in idx) + "\n].\n"
             "Definition R := Eval vm_compute in map check_case cases.\nPrint R.\n"
@@ -317,7 +550,7 @@ def run_batch(sc, binary, cases, tag):
         errors[i] = [(int(a), int(b), "") for a, b in re.findall(r"\((\d+),(\d+)\)", p)]
     errors.update(pre)
     m2 = re.search(r"S\s*=\s*(.*?)\n\s*:\s*list", outtxt, re.S)
-    sigs = re.findall(r"\((\d+),(\d+),(\d+),(\d+),(\d+)\)", re.sub(r"\s+|%N", "", m2.group(1))) if m2 else []
+    sigs = re.findall(r"\((\d+),(\d+),(\d+),(\d+),(\d+),(\d+)\)", re.sub(r"\s+|%N", "", m2.group(1))) if m2 else []
     return errors, sigs, None
 
 
@@ -387,7 +620,7 @@ def main(argv):
     args = vlib.main_args(argv)
     out = vlib.Outcome(PID, args.tier, args.seed)
     rng = vlib.rng_for(args.seed, PID)
-    n_cases = 100 if args.tier == "quick" else 8000
+    n_cases = 70 if args.tier == "quick" else 8000
 
     proof_ok, pinfo = vlib.proof_stage(out, PROPS, TARGETS)
     cov = {"obligations": pinfo["obligations"], "discharged": pinfo["discharged"],
@@ -397,13 +630,22 @@ def main(argv):
            "trusted_base": vlib.TRUSTED_BASE_COMMON + [
                "verif-tagged read-only exports in package dialer (harness/dialer/c15_export.go): set dump, snapshotLatencyForPolicy, markAvailable/markUnavailable+informDialerGroupUpdate wrappers",
                "the dialer-side latency summary (last/avg10/moving average + recovery penalty) enters model and spec as observed data of each operation; time.Duration modelled as unbounded Z",
-               "sequential histories (the set mutex serialises notifications); dialers identified by their position in the group"]}
+               "every set operation is atomic (the set mutex); DialerGroup.SetSelectionPolicy is modelled step by step (per-set switches, then the publish) with reads and notifications between any two steps; yield points are inserted by -overlay into a scratch copy of dialer_group.go (anchors checked on every run); dialers identified by their position in the group"]}
     out.coverage = cov
     out.assumptions = ["selection does not change group state (HandleNoAliveDialer's resuscitation probes are outside the property)",
                        "latencies/offsets/tolerance stay within int64 nanoseconds (no wrap-around)"]
 
     with vlib.Scratch() as sc:
-        ov = {os.path.join(vlib.REPO, EXPORT[0]): os.path.join(vlib.VERIF, EXPORT[1])}
+        ov = {os.path.join(vlib.REPO, EXPORT[0]): os.path.join(vlib.VERIF, EXPORT[1]),
+              os.path.join(vlib.REPO, HOOK[0]): os.path.join(vlib.VERIF, HOOK[1])}
+        hooked, herr = patched_group_source(sc)
+        if hooked is None:
+            out.violation("hook", {"broken": "yield points can no longer be inserted into DialerGroup.SetSelectionPolicy", "why": herr},
+                          "source shape of DialerGroup.SetSelectionPolicy changed; interleaving correspondence cannot be built",
+                          no_failing_input=True)
+            cov.update(evaluations=0, distinct_nontrivial=0, rule="", samples=[], traces_validated_against_impl=0)
+            return out.finish()
+        ov[os.path.join(vlib.REPO, GROUP_SRC)] = hooked
         binary, blog = vlib.build_go_test_binary(sc, PKG, HARNESS, extra_overlay=ov)
         if binary is None:
             out.violation("build", {"broken": "harness build against the repo failed", "log": blog[-3000:]},
@@ -416,7 +658,7 @@ def main(argv):
             for n in sorted(os.listdir(cdir)):
                 if n.endswith(".json"):
                     corpus.append(json.load(open(os.path.join(cdir, n))))
-        boundary = gen_boundary()
+        boundary = gen_boundary() + gen_switch_direct() + gen_switch_hooked() + gen_foreign()
         cases = corpus + boundary + [gen_case(rng, big=(i % 5 == 0)) for i in range(n_cases)]
         all_err = {}
         sigs = []
@@ -496,7 +738,7 @@ def main(argv):
         nontrivial = len(set(s for s in sigs if int(s[0]) > 0 and (int(s[1]) > 0 or int(s[2]) > 0 or int(s[4]) > 0)))
         first_gen = len(corpus) + len(boundary)
         cov.update(evaluations=n_eval, distinct_nontrivial=nontrivial, distinct_signatures=len(set(sigs)),
-                   rule="fixed boundary family (all 64 alive patterns over the six health domains x 1-3 nodes x random/min policy x every requested type x strict/non-strict x exclusion) + random histories over 1-6 nodes (offsets incl. negative and >= 1 h), tolerance in {0,1ns,30ms,100ms,1s,2h}, "
+                   rule="fixed families on every run: policy-switch states by hand (every ordered pair published/per-set policy x measured none/one/all x health pattern, reads via Select/GetMinLatency/GetRandExcluded under the old published policy, notifications in the window), policy switches with operations run at a yield point inside DialerGroup.SetSelectionPolicy (overlay-inserted, source-shape checked), notifications naming a non-member (raw model only); fixed boundary family (all 64 alive patterns over the six health domains x 1-3 nodes x random/min policy x every requested type x strict/non-strict x exclusion) + random histories over 1-6 nodes (offsets incl. negative and >= 1 h), tolerance in {0,1ns,30ms,100ms,1s,2h}, "
                         "latency levels on a grid with +-tolerance boundaries and ties, ops: probe success/forced death/probe failure/"
                         "direct set notification/silent sample/policy switch (6 policies, fixed index out of range)/selection "
                         "(all type flag variants, strict or not, any excluded node, repeated draws for random); signature = "
